@@ -69,6 +69,10 @@ func (op *PRelu) ValidateInputs(inputs []tensor.Tensor) ([]tensor.Tensor, error)
 	}
 
 	x, slope := inputs[0], inputs[1]
+	if x == nil || slope == nil {
+		return nil, ops.ErrInvalidInput("x and slope are both required", op)
+	}
+
 	if x.Dtype() != slope.Dtype() {
 		return nil, ops.ErrInvalidTensor("DType of 'slope' does not match DType of 'x'", op)
 	}
